@@ -77,6 +77,9 @@ def gen_case(rng: random.Random, tier: str) -> dict:
         files[f"zoq/q{i}.zoq"] = f"# S note W [[{n}]] O none\n#\n# SAVED QUERY GENERATED ON 2024-01-01 AT 12:00:00.\n\n- 230101#0{i} old result [[{n}]] " + " ".join(_link_words(rng, link_names)) + "\n"
     if rng.random() < 0.3:
         files["readme.md"] = "not a zorg file [[" + rng.choice(names) + "]]\n"
+    for rel in sorted(files):
+        if rng.random() < 0.05:
+            files[rel] = files[rel].replace("\n", "\r\n")  # Windows line ends must survive
     steps: list[dict] = []
     for _ in range(rng.randint(1, 3)):
         if rng.random() < 0.3:
@@ -202,3 +205,4 @@ def _probes(rec: hist.Rec, before: dict, want: dict, a: str, prev: Optional[tupl
     rec.probe("renamed-page-linked-from-files", int(linked > 0))
     rec.probe("chained-rename", int(prev is not None))
     rec.probe("subdirectory-source", int("/" in a))
+    rec.probe("crlf-file-rewritten", int(any(b"\r\n" in d and want.get(r) != d for r, d in before.items())))
